@@ -486,10 +486,22 @@ def rule_filed_under_canonical_text(chk, ev, repo, rid, accept_raw=False):
 
 
 # =========================================================================== C13 family
-def fstring_text(node):
-    """Constant-fold a str / f-string into text with `{expr}` placeholders; None if not a string form."""
+def fstring_text(node, consts=None):
+    """Constant-fold a str / f-string / `TEMPLATE.format(k=v)` into text with `{expr}` placeholders; None if not a string form.
+    `consts` maps names of class-level / module-level string constants to their value nodes (for `self.NAME` / `NAME`)."""
+    consts = consts or {}
     if isinstance(node, ast.Constant) and isinstance(node.value, str):
         return node.value
+    if isinstance(node, ast.Name) and node.id in consts:
+        return fstring_text(consts[node.id], consts)
+    if isinstance(node, ast.Attribute) and isinstance(node.value, ast.Name) and node.value.id in ("self", "cls") and node.attr in consts:
+        return fstring_text(consts[node.attr], consts)
+    if isinstance(node, ast.Call) and isinstance(node.func, ast.Attribute) and node.func.attr == "format" and not node.args:
+        base = fstring_text(node.func.value, consts)
+        if base is not None and all(k.arg for k in node.keywords):
+            for k in node.keywords:
+                base = base.replace("{" + k.arg + "}", "{" + U(k.value) + "}")
+            return base
     if isinstance(node, ast.JoinedStr):
         out = ""
         for v in node.values:
@@ -516,7 +528,7 @@ def sql_executes(fn):
         if isinstance(a0, ast.Name):
             cfg = cfg or CFG(fn)
             a0 = resolve_local(cfg, a0, cfg.node_of(c))
-        t = fstring_text(a0)
+        t = fstring_text(a0, getattr(fn, "_class_assigns", None))
         if t is None:
             out.append((c, None, None))
             continue
